@@ -228,7 +228,7 @@ def part_bc(ctx):
 def part_damage(ctx, bindir, pkgs):
     """pkgs: package files written by the CLI (hello world first)."""
     work = scratch("c18-damaged-" + _tag(ctx))
-    files = pkgs[:ctx.pick(3, 6)]
+    files = pkgs[:int(ctx.opts.get("files", ctx.pick(3, 6)))]
     nflips = int(ctx.opts.get("flips", ctx.pick(5000, 40000)))
     nbin = int(ctx.opts.get("bin", ctx.pick(120, 1500)))       # damaged files per compiler binary, in total
     hist = {}
@@ -240,6 +240,8 @@ def part_damage(ctx, bindir, pkgs):
         step = 1 if size <= full else max(1, size // ctx.pick(6000, 60000))
         if ctx.quick() and step == 1 and size > 8000:
             step = max(1, size // 8000)
+        if "prefixes" in ctx.opts:      # cap on the number of prefix cases per file
+            step = max(step, (size + int(ctx.opts["prefixes"]) - 1) // int(ctx.opts["prefixes"]))
         nprefix = (size + step - 1) // step
         ntrail = 96
         total = nprefix + ntrail + nflips
@@ -329,4 +331,8 @@ def part_damage(ctx, bindir, pkgs):
                                   name, o["desc"], "equals" if same else "differs from"), files=files_, cmd=cmd)
     ctx.extra["compiler_binary_outcome_histogram"] = bhist
     shutil.rmtree(work, ignore_errors=True)
-    shutil.rmtree(os.path.join(BUILD, "scratch", "c18-cli-" + _tag(ctx)), ignore_errors=True)
+    # witnesses are in the replay directories; drop this run's scratch trees
+    sc = os.path.join(BUILD, "scratch")
+    for d in os.listdir(sc):
+        if d.startswith("c18-") and d.endswith("-" + _tag(ctx)):
+            shutil.rmtree(os.path.join(sc, d), ignore_errors=True)
